@@ -212,9 +212,15 @@ C01_DelReportsPresence ==
 
 (* C02: close/reopen preserves contents (merge-free histories; with merges it is C05) *)
 C02_ReopenKeeps ==
-    (AfterOp /\ m.nmerge = 0) =>
-        /\ (Cur.ev = "reopen" => Cur.res = "ok" /\ MapOfRec(Cur.gets) = model)
-        /\ (Has(Cur, "rec") => Cur.rec.opened /\ MapOfRec(Cur.rec.map) = model)
+    /\ (AfterOp /\ m.nmerge = 0) =>
+          /\ (Cur.ev = "reopen" => Cur.res = "ok" /\ MapOfRec(Cur.gets) = model)
+          /\ (Has(Cur, "rec") => Cur.rec.opened /\ MapOfRec(Cur.rec.map) = model)
+    \* a merge is not an operation of the user (with policy `always` one runs in the background of any
+    \* history of sets and deletes): whatever it did, a reopen reads what was read before the close, and a
+    \* fresh open of a copy of the directory reads what the live store reads
+    /\ (AfterOp /\ m.nmerge > 0) =>
+          /\ (Cur.ev = "reopen" /\ Has(Rec[l - 2], "gets") => Cur.res = "ok" /\ Cur.gets = Rec[l - 2].gets)
+          /\ (Has(Cur, "rec") => Cur.rec.opened /\ Cur.rec.map = Cur.gets)
 C02_ReopenFails == (l > 2 /\ IsOpEv(Cur.ev) /\ Cur.ev = "reopen" /\ m.nmerge = 0) => Cur.res = "ok"
 
 (* C05: compaction never changes what any key reads, now or after a restart *)
